@@ -356,16 +356,21 @@ def exec : Nat → Instr → M Unit
       let id := s.fns.length
       set { s with fns := s.fns ++ [({ tm with closing := closingNow s, parent := some s.curfunc } : FnObj)] }
       pushData (.fn id)
-    | .prepareCall x nargs => do
+    | .prepareCall _ nargs => do
+      -- fix C09-02: the callee is the running function (the guard established it before the
+      -- operands ran); its variadic tail is packed
       let s ← get
-      if coreBuiltins.contains x then incPc
-      else match lexLookup s x with
-        | none => err
-        | some (_, .fn f) =>
-          let fo := fnOf s f
-          if fo.varargs then wrangleOptargs fo.nargs nargs
-          incPc
-        | some _ => incPc
+      let fo := fnOf s s.curfunc
+      if !fo.user && fo.varargs then wrangleOptargs fo.nargs nargs
+      incPc
+    | .tailGuard x skip => do
+      -- TailGuardInstr (fix C09-02): the name is looked up before the operands, as an ordinary
+      -- call resolves its callee first; unless it denotes the function object that is running,
+      -- skip to the ordinary call behind the jump
+      let s ← get
+      match lexLookup s x with
+      | some (_, .fn f) => if f = s.curfunc then incPc else set { s with pc := s.pc + skip }
+      | _ => set { s with pc := s.pc + skip }
     | .pushLazy e => do
       let s ← get
       set { s with lazies := s.lazies ++ [({ e, stack := s.linear, curfunc := s.curfunc, value := none } : LazyObj)] }
